@@ -21,7 +21,7 @@ from ..ref import riemann as rs
 ID = "C04"
 LEVEL = "exploration"
 RULE = ("E1: 12 linear reconstructions x a in {1,-1.5} x n=12 impulses; E2: sin(2 pi k x + phi), k in {1,2}, phi in {0,0.7}, a in {1,-0.5,2} x 16 reconstructions x "
-        "{rk3ssp,rk4,lsrk4 (thorough: rk3_heun,lsrk26bb)} x n = 32k{1,2,4} (thorough 8); E3: W_L=(r,u_L,q), W_R=(1,u_R,1), r,q in {1,8,1/8}, (u_L,u_R) in 5 pairs, "
+        "{rk3ssp,rk4,lsrk4 (thorough: rk3_heun,lsrk26bb)} x n = 32k{1,2,4} (thorough 8); E3: W_L=(r,u_L,q), W_R=(1,u_R,1), r,q in {1,8,1/8}, (u_L,u_R) in 5 pairs with |u|<c on both sides, "
         "each with its mirror image, x {hlle,hllc} x {extrapol1, muscl x 4 (quick: 2)} x {rk3ssp (thorough: rk2_heun)} x n in {50,100,200 (thorough 400)}; packaged "
         "Riemann solution x 41 x/t per problem; nozzle reference x 8 NPR x 2 gamma x 2 meshes. non-trivial = every run (distinct configurations)")
 ASSUMPTIONS = ["convergence is asymptotic: thresholds on a 3-4 level ladder (order >= design-0.2 and <= design+0.6; limited MUSCL >= 1.5; Riemann L1 ratio < 1 at every refinement and <= 0.9 on the finest pair) can refute, not prove",
@@ -120,6 +120,9 @@ def problems():
     for r, q in itertools.product((1.0, 8.0, 0.125), repeat=2):
         for ul, ur in UPAIRS:
             if r == 1.0 and q == 1.0 and ul == ur:
+                continue
+            # the statement is quantified over moderate data with |u| < c on both sides
+            if not (abs(ul) < np.sqrt(1.4 * q / r) and abs(ur) < np.sqrt(1.4)):
                 continue
             out.append(((r, ul, q), (1.0, ur, 1.0)))
     return out
